@@ -1187,6 +1187,72 @@ def selftest(n, seed, drv, verbose=False, kinds=('build', 'build', 'build', 'pat
     return tot
 
 
+
+# ------------------------------------------------------------------------------------------- registry (for harness/props/c06.py, c08.py)
+_P6, _P8 = 'EAO.Properties.C06', 'EAO.Properties.C08CHP'
+THEOREMS = [
+    (_P6, 'EAO.C06.commit_rows_iff_spec', 'for all T, min runtime R, min downtime D (in steps) and initial states: an on/off pattern extends to a 0/1 start assignment satisfying the GENERATED start-definition, min-runtime and min-downtime rows and initial-state bounds iff it satisfies the run-length specification MinUpDown (profile-free case)'),
+    (_P6, 'EAO.C06.commit_rows_iff_spec_bool', 'the same in Boolean form'),
+    (_P6, 'EAO.C06.spec_iff_automaton', 'MinUpDown holds iff the unit-commitment automaton (state = on?, time in state) accepts, under the constructor guard evaluated in steps'),
+    (_P6, 'EAO.C06.commit_rows_iff_automaton', 'the two combined: admissible patterns = accepted patterns, unbounded in T'),
+    (_P6, 'EAO.C06.commitWF_of_ok', 'the well-formedness hypothesis follows from a decidable check the driver evaluates on every request'),
+    (_P6, 'EAO.C06.capacity_on_off', 'off => virtual dispatch (power + k*heat) = 0; on => between min and max capacity'),
+    (_P6, 'EAO.C06.capacity_without_on', 'without on-variables: between min and max capacity'),
+    (_P6, 'EAO.C06.ramp_steps', 'the ramp rows for t >= 1 in terms of the true virtual dispatch of steps t-1 and t'),
+    (_P6, 'EAO.C06.ramp_steps_on', '|v_t - v_{t-1}| <= ramp when on at both steps (or without on-variables)'),
+    (_P6, 'EAO.C06.ramp_steps_shutdown', 'a shutdown needs v_{t-1} <= ramp'),
+    (_P6, 'EAO.C06.ramp_first_step', 'first step relative to the last dispatch, as the code has it'),
+    (_P6, 'EAO.C06.ramp_first_step_running', 'already running and on: |v_0 - last_dispatch| <= ramp'),
+    (_P6, 'EAO.C06.first_step_up_ramp_enforced_on_old_witness', 'the witness of the repaired defect F-06a is now rejected'),
+    (_P6, 'EAO.C06.start_flag', 'every feasible point has start_{t+1} >= on_{t+1} - on_t'),
+    (_P6, 'EAO.C06.start_flag_first', 'start_0 = on_0 when the unit was off before'),
+    (_P6, 'EAO.C06.spurious_start_feasible', 'machine-checked witness of known finding F-06b: a start may be flagged without an off-to-on transition'),
+    (_P6, 'EAO.C06.heat_share', 'heat <= share * power'),
+    (_P6, 'EAO.C06.fuel_rows', 'fuel-node dispatch = -(power + k*heat)/efficiency - consumption_if_on*on - start_fuel*start'),
+    (_P6, 'EAO.C06.fuel_rows_of_ok', 'the same from the decidable check evaluated per request'),
+    (_P6, 'EAO.C06.buildCHP_ok', 'whatever buildCHP returns is the base problem or the assembled CHP problem of the resolved inputs'),
+    # CHPAsset_with_min_load_costs
+    (_P6, 'EAO.C06.min_load_rows', 'min-load costs: every feasible point satisfies per step thr*(on - b) <= power (thr*(1 - b) <= power without on-variables), variables identified through the mapping as the code does'),
+    (_P6, 'EAO.C06.min_load_flag_forced', 'on and power below the threshold => the 0/1 boolean is 1, i.e. min_load_costs*dt is charged'),
+    (_P6, 'EAO.C06.min_load_flag_free', 'the boolean may be 0 when off or at/above the threshold'),
+    (_P6, 'EAO.C06.min_load_flag_not_exact', 'NOT enforced: the boolean may be 1 although off / above the threshold (costs money only)'),
+    (_P6, 'EAO.C06.min_load_nothing_added', 'empty window, min_load_costs None (default) or threshold None: the parent problem unchanged'),
+    (_P6, 'EAO.C06.min_load_shape', 'otherwise one [0,1] boolean per step of the own grid with cost min_load_costs*dt appended'),
+    # start / shutdown ramp profiles
+    (_P6, 'EAO.C06.start_profile_bounds', 'with profiles: in the k-th step after a start the virtual dispatch lies within the k-th start-profile bounds, whatever min_cap / max_cap are (precedence)'),
+    (_P6, 'EAO.C06.shutdown_profile_bounds', 'k+1 steps before a shutdown: within the k-th shutdown-profile bounds'),
+    (_P6, 'EAO.C06.capacity_outside_ramps', 'outside the ramps capacity as in the profile-free case'),
+    (_P6, 'EAO.C06.init_ramp_bounds', 'a unit in its start ramp at the beginning (0 < tar < S) follows the profile from position tar'),
+    (_P6, 'EAO.C06.start_shut_flag', 'with shutdown variables: on_{t+1} - on_t = start_{t+1} - shut_{t+1} (equality)'),
+    (_P6, 'EAO.C06.start_exact', 'with shutdown variables a start is flagged exactly at off-to-on transitions (all steps but the last)'),
+    (_P6, 'EAO.C06.shutdown_exact', 'and a shutdown exactly at on-to-off transitions'),
+    (_P6, 'EAO.C06.last_step_flags_not_exclusive', 'witness: at the last step start and shutdown may both be flagged (exclusion rows stop one step early)'),
+    (_P6, 'EAO.C06.ramp_steps_outside_ramps', 'ramp rows outside the start / shutdown ramps read as in the profile-free case'),
+    (_P6, 'EAO.C06.profile_precedence_witness', 'kernel-evaluated instance: dispatch below min_cap during the start ramp is feasible, above the profile bound is not'),
+]
+THEOREMS_C08 = [
+    (_P8, 'EAO.C08CHP.chp_vars_only_in_window', 'every mapping row of the built CHP / Plant problem (dispatch, fuel, on, start) sits at a step of the restricted grid'),
+    (_P8, 'EAO.C08CHP.chp_no_dispatch_outside_window', 'hence zero read-out at steps outside the window, whatever the solution'),
+    (_P8, 'EAO.C08CHP.chp_empty_window', 'empty window: the parent problem unchanged'),
+    (_P8, 'EAO.C08CHP.chp_mapping_asset', 'all mapping rows carry the asset name'),
+    (_P8, 'EAO.C08CHP.minload_vars_only_in_window', 'the same for the min-load-cost builder (threshold booleans)'),
+    (_P8, 'EAO.C08CHP.minload_no_dispatch_outside_window', 'zero read-out outside the window'),
+    (_P8, 'EAO.C08CHP.minload_empty_window', 'empty window: nothing added'),
+    (_P8, 'EAO.C08CHP.chp_profiles_vars_only_in_window', 'the same for the builder with ramp profiles (shutdown variables in addition)'),
+    (_P8, 'EAO.C08CHP.chp_profiles_no_dispatch_outside_window', 'zero read-out outside the window'),
+    (_P8, 'EAO.C08CHP.chp_profiles_empty_window', 'empty window: the parent problem unchanged'),
+    (_P8, 'EAO.C08CHP.chp_any_vars_only_in_window', 'the dispatching builder (with or without profiles)'),
+    (_P8, 'EAO.C08CHP.chp_any_empty_window', 'empty window for the dispatching builder'),
+    (_P8, 'EAO.C08CHP.chp_on_contract_vars_only_in_window', 'chain Contract -> CHP on a well-formed restricted grid'),
+    (_P8, 'EAO.C08CHP.chp_on_contract_empty_window', 'chain Contract -> CHP, empty window: no variable, row or mapping row'),
+    (_P8, 'EAO.C08CHP.minload_chp_on_contract_vars_only_in_window', 'chain Contract -> CHP -> min-load'),
+    (_P8, 'EAO.C08CHP.minload_chp_on_contract_empty_window', 'chain Contract -> CHP -> min-load, empty window'),
+]
+PARTIAL = ['with start/shutdown ramp profiles the on/off-pattern theorem (commit_rows_iff_spec for the rows WITH shutdown variables and the minimum runtime increased by the ramp times), the reading of the HEAT profile rows, the relaxed ramp rows with several flags at once and properties of _convert_ramp (interpolation / averaging) are modelled and covered by the exact row correspondence but have no theorem; '
+           'the statement "start flagged exactly at off-to-on transitions" holds without shutdown variables only as start >= transition (known finding F-06b: spurious starts are feasible), with shutdown variables exactly for all steps but the last (last_step_flags_not_exclusive)']
+MODELLED = ['CHPAsset / Plant with and without start/shutdown ramp profiles incl. heat variants and _convert_ramp; CHPAsset_with_min_load_costs; costs_only of all three; empty windows']
+
+
 class ScratchDriver:
     """driver behind an arbitrary command (development: `lake env lean --run /tmp/.../Main.lean`)"""
 
